@@ -76,6 +76,7 @@ CLAIMED = {
              note="Format limits are preconditions (no wrap of the 2W-bit BLAKE counter, JH bit length < 2^64, Skein position < 2^64).",
              ref="DESIGN.md 4 C17"),
 }
+BOUND_NOTE = " BOUNDED (not counted as proved beyond the bound): update is proved per (buffer fill, per-call length <= 300 bytes) shape and finalize per fill level (every level in the thorough tier), for symbolic chaining value, counters and data; the number of calls (history) is unbounded."
 NOT_YET = "check under construction in this session; not claimed until it is sound and green"
 NA_MORE = {}
 NA = {
@@ -95,7 +96,7 @@ def main():
             "replay_cmd_template": "./check --replay {path}",
             "engine": "kani+cbmc" if "verus" not in c["technique"].lower() else "kani+cbmc, verus+z3",
             "level_claimed": {"category": "proof", "text": c["text"], "design_ref": c["ref"]},
-            "level_note": c["note"],
+            "level_note": c["note"] + (BOUND_NOTE if pid in ("C04", "C05", "C06", "C07", "C17", "C16") else ""),
             "technique": c["technique"],
         })
     na = []
